@@ -665,7 +665,7 @@ func FunctionMap() map[string]physical.FunctionDetails {
 						}
 
 						return func(values []octosql.Value) (octosql.Value, error) {
-							pattern := strings.ToLower(values[1].Str)
+							pattern := "(?i)" + values[1].Str
 
 							var reg *regexp.Regexp
 							if cached, ok := regexpCache.Get(pattern); ok {
@@ -680,7 +680,7 @@ func FunctionMap() map[string]physical.FunctionDetails {
 								regexpCache.Set(pattern, compiled, 1)
 							}
 
-							return octosql.NewBoolean(reg.MatchString(strings.ToLower(values[0].Str))), nil
+							return octosql.NewBoolean(reg.MatchString(values[0].Str)), nil
 						}
 					}(),
 				},
